@@ -41,6 +41,22 @@ type caseData struct {
 	vv      map[string]string // provider table of the case (static + generated)
 	docs    map[string]any    // ROOT / SRCn: either a YAML text (string) or a Go map handed over directly
 	lookups int
+	// re-resolution cases: retrievals per uri and watcher functions of the current resolution, closes so far
+	perURI   map[string]int
+	watchers []confmap.WatcherFunc
+	closes   int
+}
+
+func (cd *caseData) note(uri string, w confmap.WatcherFunc) []confmap.RetrievedOption {
+	cd.lookups++
+	if cd.perURI == nil {
+		return nil
+	}
+	cd.perURI[uri]++
+	if w != nil {
+		cd.watchers = append(cd.watchers, w)
+	}
+	return []confmap.RetrievedOption{confmap.WithRetrievedClose(func(context.Context) error { cd.closes++; return nil })}
 }
 
 type vvProvider struct{ cur *caseData }
@@ -54,31 +70,47 @@ type counted struct {
 }
 
 func (p *counted) Retrieve(ctx context.Context, uri string, w confmap.WatcherFunc) (*confmap.Retrieved, error) {
-	p.cur.lookups++
+	p.cur.note(uri, w)
 	theWorker.Step()
 	return p.Provider.Retrieve(ctx, uri, w)
 }
 
-func (p *vvProvider) Retrieve(_ context.Context, uri string, _ confmap.WatcherFunc) (*confmap.Retrieved, error) {
+func (p *vvProvider) Retrieve(_ context.Context, uri string, w confmap.WatcherFunc) (*confmap.Retrieved, error) {
 	k := strings.TrimPrefix(uri, "vv:")
-	p.cur.lookups++
+	opts := p.cur.note(uri, w)
 	theWorker.Step()
 	if d, ok := p.cur.docs[k]; ok {
 		switch x := d.(type) {
 		case string:
-			return confmap.NewRetrievedFromYAML([]byte(x))
+			return confmap.NewRetrievedFromYAML([]byte(x), opts...)
 		default:
-			return confmap.NewRetrieved(x)
+			return confmap.NewRetrieved(x, opts...)
 		}
 	}
 	v, ok := p.cur.vv[k]
 	if !ok {
 		return nil, fmt.Errorf("vv: no such key %q", k)
 	}
-	return confmap.NewRetrievedFromYAML([]byte(v))
+	return confmap.NewRetrievedFromYAML([]byte(v), opts...)
 }
 func (*vvProvider) Scheme() string                 { return "vv" }
 func (*vvProvider) Shutdown(context.Context) error { return nil }
+
+func newResolver(cd *caseData, uris []string, def string) (*confmap.Resolver, error) {
+	return confmap.NewResolver(confmap.ResolverSettings{
+		URIs: uris,
+		ProviderFactories: []confmap.ProviderFactory{
+			confmap.NewProviderFactory(func(confmap.ProviderSettings) confmap.Provider { return &vvProvider{cd} }),
+			confmap.NewProviderFactory(func(s confmap.ProviderSettings) confmap.Provider {
+				return &counted{envprovider.NewFactory().Create(s), cd}
+			}),
+			confmap.NewProviderFactory(func(s confmap.ProviderSettings) confmap.Provider {
+				return &counted{yamlprovider.NewFactory().Create(s), cd}
+			}),
+		},
+		DefaultScheme: def,
+	})
+}
 
 func resolve(cd *caseData, uris []string, def string) (conf *confmap.Conf, err error, pv any, stack string) {
 	pv, stack = driver.Catch(func() {
@@ -945,6 +977,10 @@ func workerBody(w *confgen.Worker) {
 		rng := w.CaseRand(i)
 		if i%5 == 4 {
 			runMerge(w, i, rng)
+			continue
+		}
+		if i%5 == 2 {
+			runReresolve(w, i, rng)
 			continue
 		}
 		g := &genCtx{rng: rng, allowDup: rng.Intn(6) == 0}
